@@ -37,6 +37,10 @@ def families(tier):
         for i, sk in enumerate(RUNS):
             if q and i not in (0, 2, 3):
                 continue
+            if i == 5 and name != "UNQUOTER":
+                continue        # the 4-byte run skeleton (7 hex holes) only for the plain unquoter
+            if i == 4 and name not in ("UNQUOTER", "QS_UNQUOTER"):
+                continue
             fams.append(Family("kernel/%s/run-%d" % (name, i), K.h_unquote, dict(name=name, n=0, skeleton=sk), backends=("py", "c")))
     for qn, un in K.PAIRS:
         for k in range(1, (2 if q else 3) + 1):
